@@ -126,7 +126,11 @@ def gen_random(rnd):
             ops = []
             for _ in range(rnd.randrange(0, 9)):
                 v = rnd.choice(boundary_values(bits) + [rnd.randrange(-(1 << bits) + 1, 1 << bits)] * 12)
-                if rnd.random() < 0.2:
+                if rnd.random() < 0.12:
+                    # a character literal as a data value: its bytes in the output charset, which then have to fit the field
+                    pool = [c for c in REPERTOIRE[charset] if c.isalnum() or ord(c) > 0x7F]
+                    ops.append(("chr", rnd.choice(pool) if rnd.random() < 0.7 else rnd.choice(pool) + rnd.choice(pool)))
+                elif rnd.random() < 0.2:
                     nm = f"c{len(consts)}"
                     consts[nm] = v
                     ops.append(("sym", nm))
